@@ -6,7 +6,16 @@ from ..common import guarded, rng_for, h64, make_riscv, M32, with_alarm, AlarmTi
 from ..snapshot import riscv_snapshot, toy_snapshot, diff_names, INSPECT_RISCV, INSPECT_TOY, call_inspection, call_toy_inspection
 from ..gen import progs as G
 from ..gen import asm_rv as A
-from .icache import asm_text
+from .icache import asm_text as _asm_text
+
+
+def asm_text(prog):
+    """assembler text of a generated program; every program of this engine defines the same label names (on a line of
+    their own, in-line, at the end): what one load defined must be gone for the next one"""
+    lines = _asm_text(prog).split("\n") if prog else []
+    if len(lines) >= 2:
+        lines[len(lines) // 2] = "mid_: " + lines[len(lines) // 2]
+    return "\n".join(["main:"] + lines + ["fin_:"])
 
 RULE = {
     "C13": "three simulation kinds (single-cycle, five-stage with random cache configurations and hazard flag, TOY) x programs ending by fall-through, jump outside the program, exit ecall with younger instructions in flight, fault, or empty text x load histories of 0-5 earlier well-formed and malformed loads; "
